@@ -28,8 +28,8 @@ class Ref:
 
 
 class Func:
-    def __init__(self, name, params, body):
-        self.name, self.params, self.body = name, params, body
+    def __init__(self, name, params, body, closing=None):
+        self.name, self.params, self.body, self.closing = name, params, body, closing
 
 
 NIL = ("nil",)
@@ -262,7 +262,8 @@ class Interp:
         try:
             try:
                 self.block(f.body)
-                v = NIL
+                # the return written after the block: evaluated once the body block (and its locals) are gone
+                v = self.ev(f.closing) if f.closing is not None else NIL
             except Ret as r:
                 v = r.v
             except (Brk, Cont):
@@ -356,7 +357,7 @@ class Interp:
         elif k == "continue":
             raise Cont()
         elif k == "func":
-            self.scopes[-1][st[1]] = Func(st[1], st[2], st[3])
+            self.scopes[-1][st[1]] = Func(st[1], st[2], st[3], st[4] if len(st) > 4 else None)
         elif k == "return":
             raise Ret(self.ev(st[1]) if st[1] is not None else NIL)
         elif k == "comment":
